@@ -3,7 +3,7 @@ import os
 import shutil
 import tempfile
 from . import common, models
-from .c08 import wellformed, unproxy, resave_case, empty_case
+from .c08 import wellformed, unproxy, resave_case, empty_case, fresh_set_case
 
 
 def canon_json(roots):
@@ -297,6 +297,8 @@ def run(ctx):
         layer_correspondence(ctx, tmp)
         doc_layer(ctx, tmp)
         empty_case(ctx, tmp, 'json')
+        for k in range(20 if ctx.quick() else 300):
+            fresh_set_case(ctx, 'C09', k, tmp, 'json')
         for h in range(80 if ctx.quick() else 1500):
             resave_case(ctx, 'C09', h, tmp, 'json')
     finally:
